@@ -49,8 +49,12 @@ def init(ctx):
             )
 
     # No data index tables exist.  We should be good to create the database.
-    database_proxy.create_tables(gamut)
+    # Do it all in one transaction, so that a failure part-way through doesn't
+    # leave a partially initialised Data Index behind (which this command
+    # would then refuse to touch).
+    with database_proxy.atomic():
+        database_proxy.create_tables(gamut)
 
-    # Set schema version
-    DataIndexVersion.create(component="alpenhorn", version=current_version)
+        # Set schema version
+        DataIndexVersion.create(component="alpenhorn", version=current_version)
     click.echo(f"Data Index version {current_version} initialised.")
